@@ -42,15 +42,23 @@ def run(tier, seed):
     base = rnd.sample(base, 150 if tier == "quick" else 1500) + c06.random_cases(40 if tier == "quick" else 600, seed)
     # stub faults: nth PUT fails once / always
     faulty = []
-    for i, c in enumerate(base[:30 if tier == "quick" else 300]):
+    for i, c in enumerate(base[:48 if tier == "quick" else 400]):
         f = dict(c)
         f["id"] = "f" + c["id"]
-        f["fail_put_nth"] = 1 + i % 4
-        f["fail_put_always"] = i % 2 == 0
+        # four kinds of fault: a single refused request (the SDK retries it itself), every request from
+        # the n-th on, every SDK attempt of the n-th PutObject operation (the node's own retry must
+        # upload the same object again), every operation from the n-th on
+        kind = i % 4
+        if kind < 2:
+            f["fail_put_nth"] = 1 + (i // 4) % 4
+            f["fail_put_always"] = kind == 1
+        else:
+            f["fail_op_nth"] = 1 + (i // 4) % 4
+            f["fail_op_always"] = kind == 3
         faulty.append(f)
     all_raws = []
     with ThreadPoolExecutor(max_workers=4) as ex:
-        futs = [ex.submit(run_config, s, p, [dict(c, id="%s_%d_%s" % (s, p, c["id"])) for c in base + faulty], wd)
+        futs = [ex.submit(run_config, s, p, [dict(c, id="%s_%d_%s" % (s, p, c["id"]), meta={"s3": s}) for c in base + faulty], wd)
                 for s, p in CONFIGS]
         for f in futs:
             all_raws += f.result()
@@ -67,7 +75,9 @@ def run(tier, seed):
         "rule": "the operation / snapshot / restart histories of C06 (a sample of the NunDisk transition cover "
                 "plus seeded random ones) run with NUN_STORAGE_STRATEGY = s3 and s3_patition (1, 3, 10 "
                 "partitions) against an in-process S3 stub (PutObject / GetObject / ListObjectsV2), also with "
-                "the n-th PUT failing once or always; Trace_Restore: the dump after every restart equals the "
+                "faults: the n-th PUT request refused once (hidden by the SDK's own retry) or from then on, every SDK "
+                "attempt of the n-th PutObject operation refused (the node's retry must upload the same object "
+                "again) or of every operation from then on (must be reported); Trace_Restore: the dump after every restart equals the "
                 "dump at the last completed snapshot incl. id and strategy",
     })
     res.assumptions = ["S3 stub with strong read-after-write consistency; the SDK's own retries are opaque",
